@@ -151,3 +151,107 @@ Theorem sum_result_fill_right :
   forall fill n, sum_result_fill fill n = xsum (repeat fill n).
 Proof. exact sum_result_fill_right_proof. Qed.
 Print Assumptions sum_result_fill_right.
+
+(* ---- "right at every position (fill included) or ValueError" for the operations C07 does not model itself, closed
+   BY CITATION of the den-level theorems of the properties that own them (Proofs/FillCitesP.v; only Proofs files of
+   the other developments are imported).  Model/FillRules.v:fill_discharge records, for every PUBLIC row of the
+   generated table, what discharges it: ByGuard (22 rows), ByCite (91), CampaignOnly (36), NotApplicable (42). *)
+From Verif Require FillCitesP.
+From Verif Require Elemwise Reduce NpReduce Join NpJoin JoinP Convert NpIndex CooIndex CooIndexNormP CooIndexP
+  ShapeOps NpShapeOps ShapeOpsP.
+
+(* every public row's discharge entry checks against the table and the registry of cited theorems *)
+Theorem fill_right_or_raises_cited :
+  forallb (discharge_ok FillCitesP.registry_names sites) sites = true.
+Proof. exact FillCitesP.fill_right_or_raises_cited_proof. Qed.
+Print Assumptions fill_right_or_raises_cited.
+
+(* the registry's names are exactly the names of its entries, and every entry's statement holds *)
+Theorem cited_registry_sound :
+  map fst FillCitesP.registry = FillCitesP.registry_names
+  /\ forall n (t : FillCitesP.thm), In (n, t) FillCitesP.registry -> proj1_sig t.
+Proof. exact (conj FillCitesP.registry_names_ok FillCitesP.registry_sound_proof). Qed.
+Print Assumptions cited_registry_sound.
+
+Theorem fill_discharge_no_stale :
+  forallb (fun kd => match find_site sites (fst kd) with Some s => s_public s | None => false end) fill_discharge = true.
+Proof. exact FillCitesP.fill_discharge_no_stale_proof. Qed.
+Print Assumptions fill_discharge_no_stale.
+
+(* one explicit instance per family (statement-sensitive citations) *)
+Theorem fill_right_elemwise :
+  forall (V : Type) (veqb : V -> V -> bool), (forall a b, veqb a b = true <-> a = b) ->
+  forall (vzero : V) (f : list V -> V) (a b : COO.coo V),
+    COOP.canonical V a -> COOP.canonical V b -> COO.c_shape a = COO.c_shape b ->
+    let r := Elemwise.elemwise2 V veqb vzero f a b in
+    COO.c_fill r = f [COO.c_fill a; COO.c_fill b]
+    /\ forall ix, Shape.in_range (COO.c_shape a) ix -> COO.den r ix = f [COO.den a ix; COO.den b ix].
+Proof. exact FillCitesP.fill_right_elemwise_proof. Qed.
+Print Assumptions fill_right_elemwise.
+
+Theorem fill_right_or_raises_reduce :
+  forall (V : Type) (veqb : V -> V -> bool), (forall a b, veqb a b = true <-> a = b) ->
+  forall (op : V -> V -> V) (cast : V -> V) (sup : option (V -> Z -> V)) (ident : option V),
+    (forall a b c, op a (op b c) = op (op a b) c) -> (forall a b, op a b = op b a) ->
+    (forall a b, cast (op (cast a) (cast b)) = op (cast a) (cast b)) ->
+    (forall s f, sup = Some s -> s f 1 = cast f) ->
+    (forall s f k, sup = Some s -> 1 <= k -> s f (k + 1) = op (s f k) (cast f)) ->
+    forall (x : COO.coo V) ax kd, COOP.canonical V x -> Shape.shape_ok (COO.c_shape x) ->
+      match Reduce.reduce_coo V veqb op cast sup ident ax kd x with
+      | Ok r => exists osh g, NpReduce.np_reduce V op cast ident ax kd (COO.c_shape x) (COO.den x) = Ok (osh, g)
+                  /\ forall oix, Shape.in_range osh oix -> g oix = Ok (Reduce.rres_den r oix)
+      | Raise e => e = ValueError
+      end.
+Proof. exact FillCitesP.fill_right_or_raises_reduce_proof. Qed.
+Print Assumptions fill_right_or_raises_reduce.
+
+Theorem fill_right_or_raises_concatenate :
+  forall (V : Type) (veqb : V -> V -> bool), (forall a b, veqb a b = true <-> a = b) ->
+  forall (vzero : V) (vadd : V -> V -> V) (a : COO.coo V) (r : list (COO.coo V)),
+    ((exists x, In x r /\ COO.c_fill x <> COO.c_fill a) ->
+       forall axis, Join.coo_concatenate_src V veqb vzero vadd axis (a :: r) = Raise ValueError)
+    /\ (forall axis k, NpJoin.np_norm_axis axis (Join.ndim_of V a) = Some k -> Forall (JoinP.cwf V) (a :: r) ->
+          Forall (fun x => JoinP.same_off k (COO.c_shape a) (COO.c_shape x)) r ->
+          Forall (fun x => COO.c_fill x = COO.c_fill a) r ->
+          exists c, Join.coo_concatenate_src V veqb vzero vadd (Some axis) (a :: r) = Ok c
+                    /\ JoinP.join_result V c a (NpJoin.np_concatenate k (NpJoin.darr_of_coo a) (map NpJoin.darr_of_coo r))).
+Proof. exact FillCitesP.fill_right_or_raises_concatenate_proof. Qed.
+Print Assumptions fill_right_or_raises_concatenate.
+
+Theorem fill_right_conversion :
+  forall (V : Type) (veqb : V -> V -> bool), (forall a b, veqb a b = true <-> a = b) ->
+  forall (add : V -> V -> V) (c0 : COO.coo V) (hops : list Convert.fmt),
+    COOP.canonical V c0 -> Shape.shape_ok (COO.c_shape c0) ->
+    forallb (Convert.hop_okb (COO.c_shape c0)) hops = true -> Convert.dok0d_clause (COO.c_shape c0) hops = true ->
+    exists r, Convert.run_chain veqb add (Convert.RCoo c0) hops = Ok r
+      /\ Convert.fill_r r = COO.c_fill c0
+      /\ forall ix, Shape.in_range (COO.c_shape c0) ix -> Convert.den_r r ix = COO.den c0 ix.
+Proof. exact FillCitesP.fill_right_conversion_proof. Qed.
+Print Assumptions fill_right_conversion.
+
+Theorem fill_right_getitem :
+  forall (V : Type) (kf : nat -> nat) (x : COO.coo V) (ix : NpIndex.index) sh' g (y : COO.coo V),
+    COOP.canonical V x -> CooIndexNormP.shape_okb (COO.c_shape x) = true -> CooIndexNormP.no_zero_step ix = true ->
+    CooIndexP.basic ix = true ->
+    NpIndex.np_index (COO.c_shape x) ix = Ok (sh', g) -> CooIndex.getitem kf x ix = Ok (CooIndex.GArr y) ->
+    COO.c_fill y = COO.c_fill x /\ forall j, Shape.in_range sh' j -> COO.den y j = COO.den x (g j).
+Proof. exact FillCitesP.fill_right_getitem_proof. Qed.
+Print Assumptions fill_right_getitem.
+
+Theorem fill_right_transpose :
+  forall (V : Type) (x : COO.coo V) axes r,
+    COOP.canonical V x -> ShapeOps.coo_transpose x axes = Ok r ->
+    COO.c_fill r = COO.c_fill x
+    /\ forall ix, Shape.in_range (COO.c_shape r) ix ->
+         COO.den r ix = NpShapeOps.np_transpose (ShapeOpsP.tr_perm (ShapeOps.ndim x) axes) (COO.den x) ix.
+Proof. exact FillCitesP.fill_right_transpose_proof. Qed.
+Print Assumptions fill_right_transpose.
+
+Theorem fill_right_reshape :
+  forall (V : Type) (x : COO.coo V) new r,
+    COOP.canonical V x -> Shape.shape_ok (COO.c_shape x) -> ShapeOps.coo_reshape x new = Ok r ->
+    COO.c_fill r = COO.c_fill x
+    /\ forall ix, Shape.in_range (COO.c_shape r) ix ->
+         COO.den r ix = NpShapeOps.np_reshape (COO.c_shape x) (COO.c_shape r) (COO.den x) ix.
+Proof. exact FillCitesP.fill_right_reshape_proof. Qed.
+Print Assumptions fill_right_reshape.
